@@ -1,13 +1,13 @@
 import Std.Data.String.ToInt
-import CattrsModel.Preconf.Lemmas
+import CattrsModel.Preconf.Lemmas7
 /-!
 # C16 — preconfigured converters: loads(dumps(x, unstructure_as=T), T) == x
 
 Property theorems only.  Model: `Preconf/Model.lean` (format layers of `cattrs.preconf.{json,pyyaml,msgspec}`
-over an abstract codec).  The property is *partial* by design: the serialisation libraries are not modelled; their
-behaviour is the hypothesis `enc` ("the library can encode r") / `norm` (`decode (encode r)`), and the
-string-level behaviour of CPython (`isoformat`/`fromisoformat`, base85/base64, `str`/`int`, `repr`/`float`) is the
-law record `Env.OK`.  Both are diff-checked against the real libraries by the check on every generated case.
+over an abstract codec).  The property is *partial* by design in one respect only: the serialisation libraries are
+not modelled; their behaviour is the hypothesis `enc` ("the library can encode r") / `norm` (`decode (encode r)`),
+and the string-level behaviour of CPython (`isoformat`/`fromisoformat`, base85/base64, `str`/`int`, `repr`/`float`)
+is the law record `Env.OK`.  Both are diff-checked against the real libraries by the check on every generated case.
 
 Scope predicates (all decidable):
 * `w.WF`          enum tables as Python builds them (int/str values, pairwise distinct, consistent with the mix-in);
@@ -18,43 +18,50 @@ Scope predicates (all decidable):
                   str-valued Enum whose values need a hook; F42 `Counter[K]` keys are never unstructured;
 * `confP w T x`   x is a value of T at every depth (sets and dict keys duplicate-free);
 * `withinLimits`  ints within msgspec's documented 64-bit range (floats are finite and datetimes naive by
-                  construction of the object universe).
+                  construction of the object universe; the model's codec does not depend on the magnitude of ints,
+                  so the hypothesis is carried for the statement's sake and not used by the proof).
 
-Full statement (every constructor, every nesting):
-
-    theorem C16_roundtrip (w env cf T x) : w.WF → env.OK → sup w cf T → confP w T x → withinLimits cf.fmt x →
-        enc w cf.fmt (unP w env cf T x) = true ∧ stP w env cf T (norm w env cf.fmt (unP w env cf T x)) = some x
-
-Proved below as `C16_roundtrip_partial` with the extra hypothesis `frag cf T`: all leaf types (int, float, str,
-bytes, bool, datetime, date, enums of the three kinds, literals, native unions), Optional, every homogeneous
-sequence kind (incl. the msgspec pass-through decisions identity / to_builtins), json sets and frozensets, pyyaml
-frozensets, heterogeneous tuples, and attrs classes / dataclasses through the generated dict hooks — nested without
-bound, for all three formats, with or without a user hook pair on `float`.  Not yet proved (the executable model
-covers them and the check compares them on every run; the check also verifies on every generated case that the
-model satisfies the full statement): mappings and `Counter`, TypedDicts, collections unstructured to a
-`set`/`frozenset` (pyyaml `set`, msgspec sets — they need the injectivity of the element encoding), and msgspec
-classes handed to `to_builtins` wholesale.
+`C16_roundtrip` below is the full statement: every constructor of the type language, every nesting, all three
+formats, with or without a user hook pair on `float` — leaf types (int, float, str, bytes, bool, datetime, date,
+enums of the three kinds, literals, native unions), Optional, every homogeneous sequence kind (incl. the msgspec
+pass-through decisions identity / to_builtins), sets and frozensets whether they are unstructured to a list (json,
+pyyaml frozensets) or to a `set`/`frozenset` (pyyaml sets, msgspec: by the injectivity of the element encoding up to
+Python `==`, `unP_inj`), heterogeneous tuples, mappings of every kind (generated mapping hook, msgspec pass-through
+to `to_builtins`; keys as sent / as decoded: `key_unP`, `key_toB`) and `Counter` (`key_counter`), attrs classes and
+dataclasses through the generated dict hooks or (msgspec) handed wholesale to `to_builtins` (`rtb`), TypedDicts by
+entrywise hooks (json, pyyaml) or (msgspec) as bare mappings unstructured by run-time class (`rtr`).
+Proof: `Preconf/Lemmas.lean` … `Lemmas7.lean` (`rt_all`: mutual structural recursion on the type).
 -/
 namespace CattrsModel
 open Preconf
 
-/-- **Round trip through the serialisation format** (fragment `frag`, see the header): `dumps` succeeds — the
-unstructured data contains only what the library can encode — and `loads(dumps(x, unstructure_as=T), T)` is `x`
-with `x`'s class at every depth (model objects carry their classes). -/
-theorem C16_roundtrip_partial (w : EW) (env : Env) (cf : Conf) (t : PTy) (x : Obj)
-    (hw : w.WF = true) (he : env.OK) (hs : sup w cf t = true) (hf : frag cf t = true)
+/-- **Round trip through the serialisation format**, for every supported type: `dumps` succeeds — the unstructured
+data contains only what the library can encode — and `loads(dumps(x, unstructure_as=T), T)` is `x` with `x`'s class at
+every depth (model objects carry their classes). -/
+theorem C16_roundtrip (w : EW) (env : Env) (cf : Conf) (t : PTy) (x : Obj)
+    (hw : w.WF = true) (he : env.OK) (hs : sup w cf t = true)
     (hc : confP w t x = true) (_hl : withinLimits cf.fmt x = true) :
     enc w cf.fmt (unP w env cf t x) = true
       ∧ stP w env cf t (norm w env cf.fmt (unP w env cf t x)) = some x :=
-  rt_frag hw he t x hs hf hc
+  rt_all hw he t x hs hc
 
 /-- the same as a statement about `loads ∘ dumps` -/
-theorem C16_loads_dumps_partial (w : EW) (env : Env) (cf : Conf) (t : PTy) (x : Obj)
-    (hw : w.WF = true) (he : env.OK) (hs : sup w cf t = true) (hf : frag cf t = true)
+theorem C16_loads_dumps (w : EW) (env : Env) (cf : Conf) (t : PTy) (x : Obj)
+    (hw : w.WF = true) (he : env.OK) (hs : sup w cf t = true)
     (hc : confP w t x = true) (hl : withinLimits cf.fmt x = true) :
     roundTrip w env cf t x = some x := by
-  obtain ⟨h1, h2⟩ := C16_roundtrip_partial w env cf t x hw he hs hf hc hl
+  obtain ⟨h1, h2⟩ := C16_roundtrip w env cf t x hw he hs hc hl
   simp [roundTrip, h1, h2]
+
+/-- msgspec, TypedDict payloads: values met by **run-time class** (`converter.unstructure(v)` without a declared
+type, which is how the msgspec converter treats the entries of a TypedDict) also survive the codec and are
+rebuilt by `structure(·, T)`. -/
+theorem C16_runtime_class (w : EW) (env : Env) (uh : Option Int) (t : PTy) (x : Obj)
+    (hw : w.WF = true) (he : env.OK) (hs : sup w ⟨.msgspec, uh⟩ t = true) (hsafe : rtSafe w t = true)
+    (hc : confP w t x = true) :
+    enc w .msgspec (unRT w env ⟨.msgspec, uh⟩ t x) = true
+      ∧ stP w env ⟨.msgspec, uh⟩ t (norm w env .msgspec (unRT w env ⟨.msgspec, uh⟩ t x)) = some x :=
+  rtr hw he rfl t x hs hsafe hc
 
 theorem customF_of_float {cf : Conf} (hu : cf.uhook.isSome = true) :
     ∀ (fs : List (String × PTy)) (n : String), (n, PTy.float) ∈ fs → customF cf fs = true
@@ -67,18 +74,23 @@ theorem customF_of_float {cf : Conf} (hu : cf.uhook.isSome = true) :
 
 /-- **User hooks are honoured for attrs classes and dataclasses alike.**  With a hook pair registered on `float`
 (`v ↦ v + d/2` / `v ↦ float(v) - d/2`, any `d`), every class — `dc = false` (attrs) or `dc = true` (dataclass) —
-with a `float` field round-trips on every format: in particular the msgspec converter does not hand such a
-dataclass to `to_builtins` (which would skip the unstructure hook and then apply the structure hook: F8). -/
+with a `float` field round-trips on every format, and on msgspec such a class is *not* handed to `to_builtins`
+(which would skip the unstructure hook and then apply the structure hook: F8): its unstructured form is the dict
+built by the generated hook. -/
 theorem C16_user_hooks (w : EW) (env : Env) (fmt : Fmt) (d : Int) (c : Nat) (dc : Bool)
     (fs : List (String × PTy)) (x : Obj) (n : String)
     (hw : w.WF = true) (he : env.OK) (hfl : (n, PTy.float) ∈ fs)
-    (hs : sup w ⟨fmt, some d⟩ (.cls c dc fs) = true) (hf : fragF ⟨fmt, some d⟩ fs = true)
+    (hs : sup w ⟨fmt, some d⟩ (.cls c dc fs) = true)
     (hc : confP w (.cls c dc fs) x = true) :
-    roundTrip w env ⟨fmt, some d⟩ (.cls c dc fs) x = some x := by
+    roundTrip w env ⟨fmt, some d⟩ (.cls c dc fs) x = some x
+      ∧ ∃ vs, x = .inst c vs ∧ unP w env ⟨fmt, some d⟩ (.cls c dc fs) x = .dict (unF w env ⟨fmt, some d⟩ fs vs) := by
   have hcust : customF ⟨fmt, some d⟩ fs = true := customF_of_float rfl fs n hfl
-  have hfrag : frag ⟨fmt, some d⟩ (.cls c dc fs) = true := by simp [frag, hcust, hf]
-  obtain ⟨h1, h2⟩ := rt_frag hw he (.cls c dc fs) x hs hfrag hc
-  simp [roundTrip, h1, h2]
+  obtain ⟨h1, h2⟩ := rt_all (env := env) hw he (.cls c dc fs) x hs hc
+  refine ⟨by simp [roundTrip, h1, h2], ?_⟩
+  cases x <;> simp [confP] at hc
+  rename_i c' vs
+  obtain ⟨rfl, _⟩ := hc
+  exact ⟨vs, rfl, by simp [unP, hcust]⟩
 
 /-! ### Non-vacuity -/
 section Examples
@@ -120,15 +132,40 @@ def exX : Obj :=
 
 example : exW.WF = true := by decide
 example : sup exW ⟨.msgspec, some 2000⟩ exT = true := by decide
-example : frag ⟨.msgspec, some 2000⟩ exT = true := by decide
 example : sup exW ⟨.json, Option.none⟩ exT = true := by decide
-example : frag ⟨.json, Option.none⟩ exT = true := by decide
 example : confP exW exT exX = true := by decide
 example : withinLimits .msgspec exX = true := by decide
-example : sup exW ⟨.json, Option.none⟩ (.coll .fset (.enum 1)) = true ∧ frag ⟨.json, Option.none⟩ (.coll .fset (.enum 1)) = true
+example : sup exW ⟨.json, Option.none⟩ (.coll .fset (.enum 1)) = true
     ∧ confP exW (.coll .fset (.enum 1)) (.coll .fset [.enumM 1 0]) = true := by decide
 example : roundTrip exW c16Env ⟨.msgspec, some 2000⟩ exT exX = some exX :=
-  C16_loads_dumps_partial _ _ _ _ _ (by decide) c16Env_ok (by decide) (by decide) (by decide) (by decide)
+  C16_loads_dumps _ _ _ _ _ (by decide) c16Env_ok (by decide) (by decide) (by decide)
+
+/-- a TypedDict holding a mapping with int keys and set values, a `Counter`, a dataclass without custom fields
+(msgspec: handed to `to_builtins`), a frozenset of enum members and an optional date -/
+def exT2 : PTy :=
+  .td [("m", true, .map .dict .int (.coll .set .str)), ("c", false, .map .counter .str .int),
+       ("p", true, .cls 1 true [("x", .int), ("d", .datetime), ("b", .bytes)]),
+       ("f", false, .coll .fset (.enum 0)), ("o", true, .opt .date)]
+
+def exX2 : Obj :=
+  .dict [(.str "m", .dict [(.int 1, .coll .set [.str "a", .str "b"]), (.int 2, .coll .set [])]),
+         (.str "c", .dict [(.str "k", .int 2)]),
+         (.str "p", .inst 1 [("x", .int 3), ("d", .opaque 4), ("b", .bytes "00ff")]),
+         (.str "f", .coll .fset [.enumM 0 1, .enumM 0 0]), (.str "o", .opaque 5)]
+
+example : sup exW ⟨.msgspec, Option.none⟩ exT2 = true ∧ sup exW ⟨.yaml, some 3⟩ exT2 = true
+    ∧ sup exW ⟨.json, Option.none⟩ exT2 = true := by decide
+example : confP exW exT2 exX2 = true := by decide
+example : withinLimits .msgspec exX2 = true := by decide
+example : roundTrip exW c16Env ⟨.msgspec, Option.none⟩ exT2 exX2 = some exX2 :=
+  C16_loads_dumps _ _ _ _ _ (by decide) c16Env_ok (by decide) (by decide) (by decide)
+example : roundTrip exW c16Env ⟨.yaml, some 3⟩ exT2 exX2 = some exX2 :=
+  C16_loads_dumps _ _ _ _ _ (by decide) c16Env_ok (by decide) (by decide) (by decide)
+example : rtSafe exW exT2 = true := by decide
+/-- the user-hook theorem applies to the class of `exT` (a dataclass with a hooked `float` field) on msgspec -/
+example : sup exW ⟨.msgspec, some 2000⟩ (.cls 0 true [("a", .float), ("t", .tupleHet [.datetime, .enum 0])]) = true
+    ∧ confP exW (.cls 0 true [("a", .float), ("t", .tupleHet [.datetime, .enum 0])])
+        (.inst 0 [("a", .flt 3), ("t", .coll .tuple [.opaque 4, .enumM 0 1])]) = true := by decide
 end Examples
 
 /-! ### Negative witnesses: the recorded findings (each input is replayed on the real code by the check) -/
